@@ -39,7 +39,8 @@ OPS = [
     ("Some->None-guard", r"\.is_some\(\)", ".is_none()"), ("is_ok->is_err", r"\.is_ok\(\)", ".is_err()"),
     ("min->max", r"\.min\(", ".max("), ("max->min", r"\.max\(", ".min("),
     ("wrapping->plain-sub1", r"\.saturating_sub\(1\)", ".saturating_sub(0)"),
-    ("return-early-ok", None, None),                               # placeholder (not used)
+    # statement deletion: an assignment to a field / a mutating call on its own line is removed
+    ("delete-stmt", r"^(\s*)((self\.|\*)?[\w.\[\]]+\s*([+\-*|&^]|<<|>>)?=\s*[^=;][^;]*;|[\w.]+\.(push|push_str|extend|extend_from_slice|update|insert|copy_from_slice|truncate|clear|fill)\([^;]*\);)\s*$", None),
 ]
 
 def code_lines(path):
@@ -126,6 +127,10 @@ def main():
                         new = str(int(m.group(1)) + 1)
                     elif name == "hex-lowbit":
                         new = "0x%02X" % (int(m.group(1), 16) ^ 1)
+                    elif name == "delete-stmt":
+                        if l.lstrip().startswith(("let ", "const ", "static ", "type ", "pub ", "use ")):
+                            continue
+                        new = m.group(1)
                     else:
                         new = rep
                     sites.append((i, m.start(), m.end(), new))
